@@ -35,14 +35,19 @@ Definition nq (q : Q) : Q :=
   | Zpos n => let (a, b) := strip2 n (Qden q) in Zpos a # b
   | Zneg n => let (a, b) := strip2 n (Qden q) in Zneg a # b
   end.
-Definition qadd (a b : Q) : Q := nq (a + b).
-Definition qsub (a b : Q) : Q := nq (a - b).
+(** the operations of the model.  They are Q's own (up to [==], see Arith.v); the products are
+    written with the (power-of-two) denominators first, which is the cheap argument order of
+    the binary multiplication once extracted. *)
+Definition qadd (a b : Q) : Q :=
+  nq ((Zpos (Qden b) * Qnum a + Zpos (Qden a) * Qnum b) # (Qden a * Qden b)).
+Definition qsub (a b : Q) : Q := qadd a (- b).
 Definition qmul (a b : Q) : Q := nq (a * b).
 Definition qdiv (a b : Q) : Q := nq (a / b).
-Definition Qgtb (a b : Q) : bool := negb (Qle_bool a b).     (* a > b *)
-Definition Qltb (a b : Q) : bool := negb (Qle_bool b a).     (* a < b *)
+Definition qleb (a b : Q) : bool := (Zpos (Qden b) * Qnum a <=? Zpos (Qden a) * Qnum b)%Z.   (* a <= b *)
+Definition Qgtb (a b : Q) : bool := negb (qleb a b).     (* a > b *)
+Definition Qltb (a b : Q) : bool := negb (qleb b a).     (* a < b *)
 (** Python [min([a, b])]: the first minimal element *)
-Definition qmin (a b : Q) : Q := if Qle_bool a b then a else b.
+Definition qmin (a b : Q) : Q := if qleb a b then a else b.
 Definition qabs (a : Q) : Q := Qabs a.
 
 (** coef * sqrt(rad) *)
@@ -151,9 +156,9 @@ Definition block_centre (g : geom) (l : layer) (c : column) : option (Q * Q * Q)
   | l0 :: _ =>
       if str_eqb (lname l) (lname l0) then
         (if (atm_type g =? 1)%nat then Some (ccx c, ccy c, lcen l) else None)
-      else if Qltb (lbot l) (csurf c) && Qle_bool (csurf c) (ltop l) then
+      else if Qltb (lbot l) (csurf c) && qleb (csurf c) (ltop l) then
         Some (ccx c, ccy c, qmul (1 # 2) (qadd (lbot l) (csurf c)))
-      else if Qle_bool (csurf c) (lbot l) then None
+      else if qleb (csurf c) (lbot l) then None
       else Some (ccx c, ccy c, lcen l)
   end.
 
@@ -240,7 +245,7 @@ Definition block_name_list (g : geom) : res (list str) :=
 Definition mul_vconn (g : geom) (names : list str) (ilay : nat) (l : layer) (c : column)
   : res (option (str * str)) :=
   let thisblkname := bn g l c in
-  if (ilay =? 0)%nat || Qle_bool (csurf c) (ltop l) then
+  if (ilay =? 0)%nat || qleb (csurf c) (ltop l) then
     match nth_error (layers g) 0 with
     | None => Raise IndexError
     | Some abovelayer =>
@@ -363,7 +368,7 @@ Definition vconn (g : geom) (bm : list (str * str)) (bl : list block) (l : layer
   : res (option conn) :=
   do thisblk <- find_block bl (block_name (convention g) (lname l) (cname c) bm);
   do idx <- layer_index g l;
-  if (idx =? 1)%nat || Qle_bool (csurf c) (ltop l) then
+  if (idx =? 1)%nat || qleb (csurf c) (ltop l) then
     (* connection to atmosphere *)
     do abovelayer <- nth_layer g 0;
     let abovedist := atm_conn g in
@@ -405,7 +410,7 @@ Definition hconn_conn (g : geom) (bm : list (str * str)) (bl : list block) (l : 
       let dz := qsub (snd c2) (snd c1) in
       let d2x := qadd (qmul (pcos g) dx) (qmul (psin g) dy) in
       let d2y := qadd (qmul (- psin g) dx) (qmul (pcos g) dy) in
-      let direction := if Qle_bool (qabs d2y) (qabs d2x) then 1%nat else 2%nat in    (* argmax + 1 *)
+      let direction := if qleb (qabs d2y) (qabs d2x) then 1%nat else 2%nat in    (* argmax + 1 *)
       let dot := qadd (qadd (qmul dx (tiltx g)) (qmul dy (tilty g))) (qmul dz (tiltz g)) in
       let nrm2 := qadd (qadd (qmul dx dx) (qmul dy dy)) (qmul dz dz) in
       Ok (mkConn (bname b1) (bname b2) direction dist1 dist2 area (mkSurd dot (/ nrm2)))
